@@ -4,15 +4,15 @@
 // expressions, Lean definitions over Int / Nat with Go's semantics made
 // explicit:
 //
-//   signed ints    -> Int, + - * unbounded (int64 overflow is NOT modelled: the
-//                     theorems carry range hypotheses), / and % are Go's
-//                     truncated division  (Int.tdiv / Int.tmod)
-//   unsigned ints  -> Nat, + - * wrap modulo 2^w (GoSem.uadd/usub/umul), / % as Nat
-//   conversions    -> explicit (GoSem.toU w, Int.ofNat)
-//   panic(...)     -> GoRes.panic ; `return x, ErrFoo` -> GoRes.err "ErrFoo"
-//   calls listed as external  -> a fresh parameter of the generated def
-//   package-level *variables* and selector chains rooted at parameters -> parameters
-//   constants (go/types constant values) -> literals
+//	signed ints    -> Int, + - * unbounded (int64 overflow is NOT modelled: the
+//	                  theorems carry range hypotheses), / and % are Go's
+//	                  truncated division  (Int.tdiv / Int.tmod)
+//	unsigned ints  -> Nat, + - * wrap modulo 2^w (GoSem.uadd/usub/umul), / % as Nat
+//	conversions    -> explicit (GoSem.toU w, Int.ofNat)
+//	panic(...)     -> GoRes.panic ; `return x, ErrFoo` -> GoRes.err "ErrFoo"
+//	calls listed as external  -> a fresh parameter of the generated def
+//	package-level *variables* and selector chains rooted at parameters -> parameters
+//	constants (go/types constant values) -> literals
 //
 // Everything it cannot translate is a hard error (exit 2): the tie is then
 // broken and ./check turns that into the failing-input search.
@@ -21,10 +21,10 @@ package main
 import (
 	"bytes"
 	"flag"
-	"go/printer"
 	"fmt"
 	"go/ast"
 	"go/constant"
+	"go/printer"
 	"go/token"
 	"go/types"
 	"os"
@@ -234,9 +234,12 @@ type genFn struct {
 	useRes bool
 }
 
+// translateError aborts the translation of ONE module (recovered in main): the module's file is then written as a
+// deliberately non-compiling stub, so that exactly the properties whose models import it lose their tie.
+type translateError struct{ msg string }
+
 func fail(format string, a ...interface{}) {
-	fmt.Fprintf(os.Stderr, "go2lean: "+format+"\n", a...)
-	os.Exit(2)
+	panic(translateError{fmt.Sprintf(format, a...)})
 }
 
 func sanitize(s string) string {
@@ -979,187 +982,216 @@ func main() {
 	cfg := &packages.Config{Mode: packages.NeedName | packages.NeedSyntax | packages.NeedTypes | packages.NeedTypesInfo | packages.NeedFiles | packages.NeedImports | packages.NeedDeps, Dir: *repo}
 	pkgs, err := packages.Load(cfg, pats...)
 	if err != nil {
-		fail("load: %v", err)
+		fmt.Fprintf(os.Stderr, "go2lean: load: %v\n", err)
+		os.Exit(2)
 	}
 	byPath := map[string]*packages.Package{}
 	for _, p := range pkgs {
 		if len(p.Errors) > 0 {
-			fail("package %s has errors: %v", p.PkgPath, p.Errors)
+			// the modules that need this package fail one by one ("package … not loaded")
+			fmt.Fprintf(os.Stderr, "go2lean: package %s has errors: %v\n", p.PkgPath, p.Errors)
+			continue
 		}
 		byPath[strings.TrimPrefix(p.PkgPath, modPath)] = p
 	}
 	fnObj := map[string]*genFn{}
 	summary := []string{}
+	failed := 0
 	for _, m := range modules {
-		var sb strings.Builder
-		sb.WriteString(header(m.NS))
-		for _, c := range m.Consts {
-			p := byPath[c.Pkg]
-			obj := p.Types.Scope().Lookup(c.Name)
-			if obj == nil {
-				fail("const %s.%s not found", c.Pkg, c.Name)
-			}
-			switch o := obj.(type) {
-			case *types.Const:
-				v := constant.ToInt(o.Val())
-				if v.Kind() != constant.Int {
-					fail("const %s not integral", c.Name)
+		m := m
+		func() {
+			defer func() {
+				if r := recover(); r != nil {
+					te, ok := r.(translateError)
+					if !ok {
+						panic(r)
+					}
+					failed++
+					msg := strings.ReplaceAll(te.msg, "\n", " ")
+					fmt.Fprintf(os.Stderr, "go2lean: FAILED module %s: %s\n", m.NS, msg)
+					stub := fmt.Sprintf("-- GENERATION FAILED: %s\n-- tools/go2lean could not translate the current source of this module; the stub below does not compile on purpose,\n-- so every model that imports it (and only those) loses its tie to the code.\nnamespace %s\ntheorem translation_failed : False := translation_of_the_current_source_failed\nend %s\n", msg, m.NS, m.NS)
+					if err := os.WriteFile(filepath.Join(*out, m.File), []byte(stub), 0644); err != nil {
+						fmt.Fprintf(os.Stderr, "go2lean: %v\n", err)
+						os.Exit(2)
+					}
 				}
-				ty := classify(o.Type())
-				sb.WriteString(fmt.Sprintf("def %s : %s := %s\n\n", c.Lean, ty.lean(), v.ExactString()))
-			case *types.Var:
-				// find initializer
-				done := false
-				for _, f := range p.Syntax {
-					ast.Inspect(f, func(n ast.Node) bool {
-						vs, ok := n.(*ast.ValueSpec)
-						if !ok {
-							return true
-						}
-						for i, nm := range vs.Names {
-							if p.TypesInfo.Defs[nm] == obj && len(vs.Values) > i {
-								tv := p.TypesInfo.Types[vs.Values[i]]
-								if tv.Value != nil {
-									v := constant.ToInt(tv.Value)
-									ty := classify(o.Type())
-									sb.WriteString(fmt.Sprintf("def %s : %s := %s\n\n", c.Lean, ty.lean(), v.ExactString()))
-									done = true
+			}()
+			var sb strings.Builder
+			sb.WriteString(header(m.NS))
+			for _, c := range m.Consts {
+				p := byPath[c.Pkg]
+				if p == nil {
+					fail("package %s not loaded", c.Pkg)
+				}
+				obj := p.Types.Scope().Lookup(c.Name)
+				if obj == nil {
+					fail("const %s.%s not found", c.Pkg, c.Name)
+				}
+				switch o := obj.(type) {
+				case *types.Const:
+					v := constant.ToInt(o.Val())
+					if v.Kind() != constant.Int {
+						fail("const %s not integral", c.Name)
+					}
+					ty := classify(o.Type())
+					sb.WriteString(fmt.Sprintf("def %s : %s := %s\n\n", c.Lean, ty.lean(), v.ExactString()))
+				case *types.Var:
+					// find initializer
+					done := false
+					for _, f := range p.Syntax {
+						ast.Inspect(f, func(n ast.Node) bool {
+							vs, ok := n.(*ast.ValueSpec)
+							if !ok {
+								return true
+							}
+							for i, nm := range vs.Names {
+								if p.TypesInfo.Defs[nm] == obj && len(vs.Values) > i {
+									tv := p.TypesInfo.Types[vs.Values[i]]
+									if tv.Value != nil {
+										v := constant.ToInt(tv.Value)
+										ty := classify(o.Type())
+										sb.WriteString(fmt.Sprintf("def %s : %s := %s\n\n", c.Lean, ty.lean(), v.ExactString()))
+										done = true
+									}
 								}
 							}
-						}
-						return true
-					})
-				}
-				if !done {
-					fail("var %s.%s has no constant initializer", c.Pkg, c.Name)
-				}
-			default:
-				fail("%s.%s is not a const/var", c.Pkg, c.Name)
-			}
-		}
-		for i := range m.Funcs {
-			fs := &m.Funcs[i]
-			p := byPath[fs.Pkg]
-			if p == nil {
-				fail("package %s not loaded", fs.Pkg)
-			}
-			fd := findFunc(p, fs.Recv, fs.Name)
-			if fd == nil {
-				fail("function %s.%s not found", fs.Pkg, fs.Name)
-			}
-			t := &tr{pkg: p, info: p.TypesInfo, spec: fs, seen: map[string]bool{}, locals: map[types.Object]string{}, fnObj: fnObj}
-			formal := t.bindFormals(fd)
-			res := fd.Type.Results
-			var resTys []string
-			if res != nil {
-				for _, f := range res.List {
-					n := len(f.Names)
-					if n == 0 {
-						n = 1
+							return true
+						})
 					}
-					for j := 0; j < n; j++ {
-						ty := classify(t.info.TypeOf(f.Type))
-						if ty.k == kErr {
-							t.resErr = true
-						} else {
-							resTys = append(resTys, ty.lean())
+					if !done {
+						fail("var %s.%s has no constant initializer", c.Pkg, c.Name)
+					}
+				default:
+					fail("%s.%s is not a const/var", c.Pkg, c.Name)
+				}
+			}
+			for i := range m.Funcs {
+				fs := &m.Funcs[i]
+				p := byPath[fs.Pkg]
+				if p == nil {
+					fail("package %s not loaded", fs.Pkg)
+				}
+				fd := findFunc(p, fs.Recv, fs.Name)
+				if fd == nil {
+					fail("function %s.%s not found", fs.Pkg, fs.Name)
+				}
+				t := &tr{pkg: p, info: p.TypesInfo, spec: fs, seen: map[string]bool{}, locals: map[types.Object]string{}, fnObj: fnObj}
+				formal := t.bindFormals(fd)
+				res := fd.Type.Results
+				var resTys []string
+				if res != nil {
+					for _, f := range res.List {
+						n := len(f.Names)
+						if n == 0 {
+							n = 1
+						}
+						for j := 0; j < n; j++ {
+							ty := classify(t.info.TypeOf(f.Type))
+							if ty.k == kErr {
+								t.resErr = true
+							} else {
+								resTys = append(resTys, ty.lean())
+							}
 						}
 					}
 				}
+				t.hasRes = t.resErr || hasPanic(fd.Body) || fs.StopAt != ""
+				body := t.block(fd.Body.List, "", "  ")
+				rty := strings.Join(resTys, " × ")
+				if len(resTys) == 0 {
+					rty = "Unit"
+				}
+				if fs.StopAt != "" {
+					rty = "_"
+				}
+				if t.hasRes {
+					rty = "GoRes (" + rty + ")"
+				}
+				if fs.StopAt != "" {
+					sb.WriteString(fmt.Sprintf("def %s %s :=\n  (show GoRes _ from\n  %s)\n\n", fs.Lean, paramList(t.params), body))
+				} else {
+					sb.WriteString(fmt.Sprintf("def %s %s : %s :=\n  %s\n\n", fs.Lean, paramList(t.params), rty, body))
+				}
+				fnObj[p.PkgPath+"."+fs.Name] = &genFn{lean: m.NS + "." + fs.Lean, params: t.params, formal: formal, useRes: t.hasRes}
+				summary = append(summary, fmt.Sprintf("func %s.%s -> %s.%s", fs.Pkg, fs.Name, m.NS, fs.Lean))
 			}
-			t.hasRes = t.resErr || hasPanic(fd.Body) || fs.StopAt != ""
-			body := t.block(fd.Body.List, "", "  ")
-			rty := strings.Join(resTys, " × ")
-			if len(resTys) == 0 {
-				rty = "Unit"
-			}
-			if fs.StopAt != "" {
-				rty = "_"
-			}
-			if t.hasRes {
-				rty = "GoRes (" + rty + ")"
-			}
-			if fs.StopAt != "" {
-				sb.WriteString(fmt.Sprintf("def %s %s :=\n  (show GoRes _ from\n  %s)\n\n", fs.Lean, paramList(t.params), body))
-			} else {
-				sb.WriteString(fmt.Sprintf("def %s %s : %s :=\n  %s\n\n", fs.Lean, paramList(t.params), rty, body))
-			}
-			fnObj[p.PkgPath+"."+fs.Name] = &genFn{lean: m.NS + "." + fs.Lean, params: t.params, formal: formal, useRes: t.hasRes}
-			summary = append(summary, fmt.Sprintf("func %s.%s -> %s.%s", fs.Pkg, fs.Name, m.NS, fs.Lean))
-		}
-		for i := range m.Exprs {
-			es := &m.Exprs[i]
-			p := byPath[es.Pkg]
-			fd := findFunc(p, es.Recv, es.Func)
-			if fd == nil {
-				fail("function %s.%s not found", es.Pkg, es.Func)
-			}
-			spec := &FuncSpec{Name: es.Func + "/" + es.Lean}
-			t := &tr{pkg: p, info: p.TypesInfo, spec: spec, seen: map[string]bool{}, locals: map[types.Object]string{}, fnObj: fnObj}
-			// every identifier becomes a parameter
-			var target ast.Expr
-			cnt := 0
-			ast.Inspect(fd.Body, func(n ast.Node) bool {
-				switch x := n.(type) {
-				case *ast.AssignStmt:
-					if es.Kind == "assign" && len(x.Lhs) == 1 {
-						if id, ok := x.Lhs[0].(*ast.Ident); ok && id.Name == es.LHS {
+			for i := range m.Exprs {
+				es := &m.Exprs[i]
+				p := byPath[es.Pkg]
+				fd := findFunc(p, es.Recv, es.Func)
+				if fd == nil {
+					fail("function %s.%s not found", es.Pkg, es.Func)
+				}
+				spec := &FuncSpec{Name: es.Func + "/" + es.Lean}
+				t := &tr{pkg: p, info: p.TypesInfo, spec: spec, seen: map[string]bool{}, locals: map[types.Object]string{}, fnObj: fnObj}
+				// every identifier becomes a parameter
+				var target ast.Expr
+				cnt := 0
+				ast.Inspect(fd.Body, func(n ast.Node) bool {
+					switch x := n.(type) {
+					case *ast.AssignStmt:
+						if es.Kind == "assign" && len(x.Lhs) == 1 {
+							if id, ok := x.Lhs[0].(*ast.Ident); ok && id.Name == es.LHS {
+								if cnt == es.Nth {
+									target = x.Rhs[0]
+								}
+								cnt++
+							}
+						}
+					case *ast.ReturnStmt:
+						if es.Kind == "return" {
+							if cnt == es.Nth && len(x.Results) > es.K {
+								target = x.Results[es.K]
+							}
+							cnt++
+						}
+					case *ast.IfStmt:
+						if es.Kind == "ifcond" && strings.Contains(nodeText(p.Fset, x.Cond), es.LHS) {
 							if cnt == es.Nth {
-								target = x.Rhs[0]
+								target = x.Cond
 							}
 							cnt++
 						}
 					}
-				case *ast.ReturnStmt:
-					if es.Kind == "return" {
-						if cnt == es.Nth && len(x.Results) > es.K {
-							target = x.Results[es.K]
-						}
-						cnt++
-					}
-				case *ast.IfStmt:
-					if es.Kind == "ifcond" && strings.Contains(nodeText(p.Fset, x.Cond), es.LHS) {
-						if cnt == es.Nth {
-							target = x.Cond
-						}
-						cnt++
-					}
+					return true
+				})
+				if target == nil {
+					fail("expression %s in %s not found", es.Lean, es.Func)
 				}
-				return true
-			})
-			if target == nil {
-				fail("expression %s in %s not found", es.Lean, es.Func)
-			}
-			// bind all identifiers used in target as params
-			ast.Inspect(target, func(n ast.Node) bool {
-				if sel, ok := n.(*ast.SelectorExpr); ok {
-					_ = sel
-					return false
-				}
-				if id, ok := n.(*ast.Ident); ok {
-					if obj := t.info.Uses[id]; obj != nil {
-						if v, ok := obj.(*types.Var); ok && v.Parent() != v.Pkg().Scope() {
-							ty := classify(v.Type())
-							if ty.k == kInt || ty.k == kNat || ty.k == kBool || ty.k == kOpaque {
-								t.locals[obj] = sanitize(id.Name)
-								t.addParam(id.Name, ty)
+				// bind all identifiers used in target as params
+				ast.Inspect(target, func(n ast.Node) bool {
+					if sel, ok := n.(*ast.SelectorExpr); ok {
+						_ = sel
+						return false
+					}
+					if id, ok := n.(*ast.Ident); ok {
+						if obj := t.info.Uses[id]; obj != nil {
+							if v, ok := obj.(*types.Var); ok && v.Parent() != v.Pkg().Scope() {
+								ty := classify(v.Type())
+								if ty.k == kInt || ty.k == kNat || ty.k == kBool || ty.k == kOpaque {
+									t.locals[obj] = sanitize(id.Name)
+									t.addParam(id.Name, ty)
+								}
 							}
 						}
 					}
-				}
-				return true
-			})
-			body, ty := t.expr(target)
-			sort.SliceStable(t.params, func(a, b int) bool { return t.params[a].name < t.params[b].name })
-			sb.WriteString(fmt.Sprintf("def %s %s : %s :=\n  %s\n\n", es.Lean, paramList(t.params), ty.lean(), body))
-			summary = append(summary, fmt.Sprintf("expr %s.%s#%s -> %s.%s", es.Pkg, es.Func, es.Lean, m.NS, es.Lean))
-		}
-		sb.WriteString("end " + m.NS + "\n")
-		if err := os.WriteFile(filepath.Join(*out, m.File), []byte(sb.String()), 0644); err != nil {
-			fail("write: %v", err)
-		}
+					return true
+				})
+				body, ty := t.expr(target)
+				sort.SliceStable(t.params, func(a, b int) bool { return t.params[a].name < t.params[b].name })
+				sb.WriteString(fmt.Sprintf("def %s %s : %s :=\n  %s\n\n", es.Lean, paramList(t.params), ty.lean(), body))
+				summary = append(summary, fmt.Sprintf("expr %s.%s#%s -> %s.%s", es.Pkg, es.Func, es.Lean, m.NS, es.Lean))
+			}
+			sb.WriteString("end " + m.NS + "\n")
+			if err := os.WriteFile(filepath.Join(*out, m.File), []byte(sb.String()), 0644); err != nil {
+				fail("write: %v", err)
+			}
+		}()
 	}
 	for _, s := range summary {
 		fmt.Println(s)
+	}
+	if failed > 0 {
+		fmt.Printf("%d module(s) could not be translated (stubs written)\n", failed)
 	}
 }
